@@ -223,8 +223,10 @@ pub fn bound_create_tx(owner: &Actor, recipient: &PK, o: &OutRef, deposit: u64, 
     tx.add_to_slip(s1);
     tx.add_to_slip(s2);
     tx.add_to_slip(s3);
-    if o.amount > deposit {
-        tx.add_to_slip(out_slip(&owner.pk, o.amount - deposit));
+    // the creation pays a small fee like any other transaction (the wallet's own builder leaves none)
+    let fee = if o.amount > deposit + 40 { 25 + (o.amount % 13) } else { 0 };
+    if o.amount > deposit + fee {
+        tx.add_to_slip(out_slip(&owner.pk, o.amount - deposit - fee));
     }
     tx.sign(&owner.sk);
     tx
